@@ -94,18 +94,21 @@ def run(ctx):
         runs_tlc = [m1, m2, m3]
         ctx.exhaustive = False
     else:
-        m1 = ctx.tlc("Tester", defines={"MaxLen": "2", "Pool": "AllTests", "MainIds": "MainBoth", "MaxFam": "2"},
-                     tag="len<=2 all", timeout=1800)
-        m2 = ctx.tlc("Tester", defines={"MaxLen": "3", "Pool": "CoreNames", "MainIds": "MainOne", "MaxFam": "0",
-                                        "EmitAll": "FALSE"}, tag="len3 core main1", timeout=3000)
-        core2 = rng.sample(CORE, 12)
-        m3 = ctx.tlc("Tester", defines={"MaxLen": "3", "Pool": tla_set(core2), "MainIds": "{2}", "MaxFam": "0",
+        # every file of <= 2 tests over the whole pool against main VCL 1, over the core pool against main VCL 2
+        m1 = ctx.tlc("Tester", defines={"MaxLen": "2", "Pool": "AllTests", "MainIds": "MainOne", "MaxFam": "2"},
+                     tag="len<=2 all main1", timeout=1800)
+        m2 = ctx.tlc("Tester", defines={"MaxLen": "2", "Pool": "CoreNames", "MainIds": "{2}", "MaxFam": "0"},
+                     tag="len<=2 core main2", timeout=1800)
+        # every file of exactly 3 tests over a seeded part of the core pool
+        m3 = ctx.tlc("Tester", defines={"MaxLen": "3", "Pool": tla_set(rng.sample(CORE, 14)), "MainIds": "MainOne",
+                                        "MaxFam": "0", "EmitAll": "FALSE"}, tag="len3 sample main1", timeout=3000)
+        m4 = ctx.tlc("Tester", defines={"MaxLen": "3", "Pool": tla_set(rng.sample(CORE, 8)), "MainIds": "{2}", "MaxFam": "0",
                                         "EmitAll": "FALSE"}, tag="len3 sample main2", timeout=3000)
         # length-4 files: seeded simulation
-        m4 = ctx.tlc("Tester", cfg="TesterSim.cfg", simulate=1500, depth=40,
+        m5 = ctx.tlc("Tester", cfg="TesterSim.cfg", simulate=1500, depth=40,
                      defines={"MaxLen": "4", "Pool": "AllTests", "MainIds": "MainBoth", "MaxFam": "2", "EmitAll": "FALSE"},
                      tag="len4 simulate", timeout=1800)
-        runs_tlc = [m1, m2, m3, m4]
+        runs_tlc = [m1, m2, m3, m4, m5]
         ctx.exhaustive = False
     for m in runs_tlc:
         if m.violated:
